@@ -69,7 +69,7 @@ theorem getD_map_dkey (k : List UInt64) (j : Nat) (hj : j < k.length) :
     (k.map dkey).getD j 0 = dkey (k.getD j 0) := by
   simp [List.getD_eq_getElem?_getD, hj]
 
-theorem getD_mem {α} (k : List α) (j : Nat) (d : α) (hj : j < k.length) : k.getD j d ∈ k := by
+theorem getD_mem_of_lt {α} (k : List α) (j : Nat) (d : α) (hj : j < k.length) : k.getD j d ∈ k := by
   rw [List.getD_eq_getElem?_getD, List.getElem?_eq_getElem hj]; exact List.getElem_mem hj
 
 theorem keyAxis_WF (t : Fits.Table) (i : Nat) (hd : DimWF (t.order.getD i 0) (t.naxes.getD i 0) (t.knots.getD i [])) :
@@ -95,7 +95,7 @@ theorem lookupAxis_search (t : Fits.Table) (memK : Nat → Nat → Option Int) (
   unfold knotsValid at hv
   simp only [Bool.and_eq_true, List.all_eq_true] at hv
   simp only [Table.lookupAxis, keyAxis, hj, if_true]
-  rw [keyOf_finite _ (hv.1 _ (getD_mem _ _ _ hj)), getD_map_dkey _ _ hj]
+  rw [keyOf_finite _ (hv.1 _ (getD_mem_of_lt _ _ _ hj)), getD_map_dkey _ _ hj]
 
 /-- outcome of one dimension of the lookup on a valid dimension: rejection, or a centre in
     `[order, nknots-order-2]`; never divergence; and it does not depend on memory beyond the knot array -/
@@ -338,7 +338,7 @@ theorem evalDim_WF (t : Fits.Table) (kn : UInt64 → β) (hk : KeyMono kn) (mem 
   rw [if_pos h1, if_pos h2]
   have la : a.toNat < (t.knots.getD i []).length := by omega
   have lb : b.toNat < (t.knots.getD i []).length := by omega
-  apply hk _ _ (hv.1 _ (getD_mem _ _ _ la)) (hv.1 _ (getD_mem _ _ _ lb))
+  apply hk _ _ (hv.1 _ (getD_mem_of_lt _ _ _ la)) (hv.1 _ (getD_mem_of_lt _ _ _ lb))
   have := sortedKeys_mono _ hv.2 a.toNat b.toNat (by omega) (by simpa using lb)
   rwa [getD_map_dkey _ _ la, getD_map_dkey _ _ lb] at this
 
